@@ -2426,10 +2426,11 @@ template< size_t L>
    va_list  ap;
 
    ::va_start( ap, format);
-   mLength = std::vsnprintf( mString, L + 1, format, ap);
+   const int  result = std::vsnprintf( mString, L + 1, format, ap);
    ::va_end( ap);
 
-   mLength = std::min( L, static_cast< size_t>( mLength));
+   // clamp before storing in the (possibly small) length type
+   mLength = (result < 0) ? 0 : std::min( L, static_cast< size_t>( result));
    mString[ mLength] = '\0';
 
    return *this;
